@@ -2246,4 +2246,407 @@ theorem arm_closed_waits {s : St} (hst : s.state = .available) (hc : Calm s) (hc
   rw [arm_avail_closed hst hal, closedArm_nil_open (s := { s1 with queue := [] }) (c6.trans hq) (hso.trans ho)]
   exact ⟨rfl, c13, c9, rfl, c3.trans hst, c16, evs, e1, fun e he => (e2 e he).1⟩
 
+
+
+
+
+/-! ### the self-recursion of `poll` terminates: fuel proportional to the scripts is enough -/
+
+/-- answers of a script that are not `Ready` -/
+def cnt : List Rd → Nat
+  | [] => 0
+  | .ready :: t => cnt t
+  | _ :: t => cnt t + 1
+
+def futWeight : List Inc → Nat
+  | [] => 0
+  | i :: t => cnt i.script + futWeight t
+
+def svcWeight (sv : Svc) : Nat := cnt sv.script + futWeight sv.future
+
+def sumTo (f : Nat → Nat) : Nat → Nat
+  | 0 => 0
+  | n + 1 => sumTo f n + f n
+
+def stateWeight : WState → Nat
+  | .restarting _ _ _ sc => cnt sc
+  | _ => 0
+
+def rank : WState → Nat
+  | .shutdown _ _ _ => 0
+  | .available => 1
+  | .unavailable => 2
+  | .restarting _ _ _ _ => 3
+
+def svcsWeight (s : St) : Nat := sumTo (fun i => svcWeight (s.svc i)) s.n
+
+/-- what is left of all scripts (weighted) plus the rank of the state: every re-entry of `poll` lowers it -/
+def measure (s : St) : Nat := 3 * (svcsWeight s + stateWeight s.state) + rank s.state
+
+theorem sumTo_congr {f g : Nat → Nat} (n : Nat) (h : ∀ i, i < n → f i = g i) : sumTo f n = sumTo g n := by
+  induction n with
+  | zero => rfl
+  | succ n ih => simp only [sumTo]; rw [ih (fun i hi => h i (by omega)), h n (by omega)]
+
+/-- changing one summand -/
+theorem sumTo_upd {f g : Nat → Nat} (n i : Nat) (hi : i < n) (h : ∀ j, j ≠ i → g j = f j) :
+    sumTo g n + f i = sumTo f n + g i := by
+  induction n with
+  | zero => omega
+  | succ n ih =>
+    simp only [sumTo]
+    by_cases hin : i = n
+    · subst hin
+      rw [sumTo_congr i (fun j hj => h j (by omega))]; omega
+    · have := ih (by omega)
+      rw [h n (fun h => hin h.symm)]; omega
+
+theorem cnt_tail (l : List Rd) : cnt (nextRd l).2 + (if (nextRd l).1 = .ready then 0 else 1) = cnt l := by
+  cases l with
+  | nil => rfl
+  | cons r t => cases r <;> simp only [nextRd, cnt] <;> rfl
+
+theorem readyStep_weight (s : St) (i : Nat) (hi : i < s.n) :
+    svcsWeight (readyStep s i) + (if rdOf s i = .ready then 0 else 1) = svcsWeight s := by
+  unfold svcsWeight
+  have hn : (readyStep s i).n = s.n := rfl
+  rw [hn]
+  have h := sumTo_upd (f := fun j => svcWeight (s.svc j)) (g := fun j => svcWeight ((readyStep s i).svc j)) s.n i hi
+    (fun j hj => by simp only [readyStep_svc, if_neg hj])
+  have hw : svcWeight ((readyStep s i).svc i) + (if rdOf s i = .ready then 0 else 1) = svcWeight (s.svc i) := by
+    simp only [readyStep_svc, if_true, svcWeight]
+    have := cnt_tail (s.svc i).script
+    unfold rdOf; omega
+  omega
+
+/-- a sweep never adds work, and one that does not end all-ready has used up a non-`Ready` answer -/
+theorem sweepFrom_weight (k : Nat) : ∀ (s : St) (i : Nat) (r : Bool), i + k ≤ s.n →
+    svcsWeight (sweepFrom s i r k).1 + (if (sweepFrom s i r k).2 = .ok r then 0 else 1) ≤ svcsWeight s := by
+  induction k with
+  | zero => intro s i r _; simp [sweepFrom]
+  | succ k ih =>
+    intro s i r hik
+    rcases sweepFrom_cases s i r k with ⟨_, e⟩ | ⟨_, hr, e⟩ | ⟨_, hr, e⟩ | ⟨_, hr, e⟩ <;> rw [e]
+    · exact ih s (i + 1) r (by omega)
+    · have h1 := ih (readyStep s i) (i + 1) r (by show i + 1 + k ≤ s.n; omega)
+      have h2 := readyStep_weight s i (by omega)
+      rw [hr] at h2; simp at h2; omega
+    · have h1 := ih (readyStep s i) (i + 1) false (by show i + 1 + k ≤ s.n; omega)
+      have h2 := readyStep_weight s i (by omega)
+      rw [hr] at h2; simp at h2
+      have h3 : svcsWeight (sweepFrom (readyStep s i) (i + 1) false k).1 ≤ svcsWeight (readyStep s i) := by
+        split at h1 <;> omega
+      split <;> omega
+    · have h2 := readyStep_weight s i (by omega)
+      rw [hr] at h2; simp at h2
+      simp; omega
+
+theorem sweep_weight {s s1 : St} {r : Sweep} (h : sweep s = (s1, r)) :
+    svcsWeight s1 + (if r = .ok true then 0 else 1) ≤ svcsWeight s := by
+  have := sweepFrom_weight s.n s 0 true (by omega)
+  unfold sweep at h; rw [h] at this; exact this
+
+
+theorem svcsWeight_congr {s s' : St} (hn : s'.n = s.n) (hs : ∀ j, j < s.n → svcWeight (s'.svc j) = svcWeight (s.svc j)) :
+    svcsWeight s' = svcsWeight s := by
+  unfold svcsWeight; rw [hn]; exact sumTo_congr _ hs
+
+def LoopRes.again : LoopRes → Bool
+  | .toUnavailable => true
+  | .restart _ => true
+  | _ => false
+
+theorem availLoop_weight (q : List Conn) : ∀ (s : St),
+    svcsWeight (availLoop s q).1 + (if (availLoop s q).2.again then 1 else 0) ≤ svcsWeight s := by
+  induction q with
+  | nil =>
+    intro s
+    rcases hsw : sweep s with ⟨s1, r⟩
+    have hw := sweep_weight hsw
+    cases r with
+    | err i => rw [availLoop_nil_err hsw]; simp [LoopRes.again] at hw ⊢; exact hw
+    | ok b => cases b with
+      | false => rw [availLoop_nil_false hsw]; simp [LoopRes.again] at hw ⊢; exact hw
+      | true => cases hco : s1.chanOpen with
+        | true => rw [availLoop_nil_open hsw hco]; simp [LoopRes.again] at hw ⊢; exact hw
+        | false => rw [availLoop_nil_closed hsw hco]; simp [LoopRes.again] at hw ⊢; exact hw
+  | cons c q ih =>
+    intro s
+    rcases hsw : sweep s with ⟨s1, r⟩
+    have hw := sweep_weight hsw
+    cases r with
+    | err i => rw [availLoop_cons_err c q hsw]; simp [LoopRes.again] at hw ⊢; exact hw
+    | ok b => cases b with
+      | false => rw [availLoop_cons_false c q hsw]; simp [LoopRes.again] at hw ⊢; exact hw
+      | true =>
+        by_cases htok : c.2 < s1.n
+        · rw [availLoop_cons_call c q hsw htok]
+          have := ih { (emit s1 [.call c.2 (s1.svc c.2).inc c]) with inflight := s1.inflight ++ [c], queue := q }
+          have e : svcsWeight { (emit s1 [.call c.2 (s1.svc c.2).inc c]) with inflight := s1.inflight ++ [c], queue := q } = svcsWeight s1 := rfl
+          rw [e] at this; simp at hw; omega
+        · rw [availLoop_cons_bad c q hsw htok]; simp [LoopRes.again] at hw ⊢; exact hw
+
+theorem restartService_weight (s : St) (i : Nat) (hi : i < s.n) :
+    svcsWeight (restartService s i) + stateWeight (restartService s i).state = svcsWeight s := by
+  have h := sumTo_upd (f := fun j => svcWeight (s.svc j)) (g := fun j => svcWeight ((restartService s i).svc j)) s.n i hi
+    (fun j hj => by simp [restartService, upd, hj, emit])
+  have hw : svcWeight ((restartService s i).svc i) + stateWeight (restartService s i).state = svcWeight (s.svc i) := by
+    simp only [restartService, upd, if_true, svcWeight, stateWeight, emit]
+    cases hf : (s.svc i).future with
+    | nil => simp [futWeight, cnt]
+    | cons a t => simp [futWeight]; omega
+  unfold svcsWeight
+  have hn : (restartService s i).n = s.n := rfl
+  rw [hn]; omega
+
+theorem created_weight (s : St) (tok : Nat) (sc : List Rd) (hi : tok < s.n) :
+    svcsWeight (created s tok sc) ≤ svcsWeight s + cnt sc := by
+  have h := sumTo_upd (f := fun j => svcWeight (s.svc j)) (g := fun j => svcWeight ((created s tok sc).svc j)) s.n tok hi
+    (fun j hj => by simp [created, upd, hj])
+  have hw : svcWeight ((created s tok sc).svc tok) ≤ svcWeight (s.svc tok) + cnt sc := by
+    simp only [created, upd, if_true, svcWeight]; omega
+  unfold svcsWeight
+  have hn : (created s tok sc).n = s.n := rfl
+  rw [hn]; omega
+
+theorem shutdownSvcs_weight (s : St) (f : Bool) : svcsWeight (shutdownSvcs s f) = svcsWeight s := by
+  unfold svcsWeight
+  show sumTo (fun i => svcWeight (markStopped f (s.svc i))) s.n = _
+  apply sumTo_congr
+  intro j _; unfold markStopped; split <;> rfl
+
+/-- the `Stop` handler does not touch the scripts; if the worker goes on after a `Stop` it is in `Shutdown` -/
+theorem stopPhase_weight (s : St) : svcsWeight (stopPhase s).1 = svcsWeight s ∧
+    ((stopPhase s).2 = false → s.stopQ ≠ [] → ∃ t sf k, (stopPhase s).1.state = .shutdown t sf k) ∧
+    ((stopPhase s).2 = false → s.stopQ = [] → (stopPhase s).1.state = s.state) := by
+  cases hq : s.stopQ with
+  | nil => rw [stopPhase_nil hq]; exact ⟨rfl, fun _ h => absurd rfl h, fun _ _ => rfl⟩
+  | cons a rest =>
+    obtain ⟨k, g⟩ := a
+    by_cases h0 : s.raw = 0
+    · rw [stopPhase_underflow hq h0]; exact ⟨rfl, fun h => by simp at h, fun h => by simp at h⟩
+    · by_cases h1 : Src.wcTotal s.raw = 0
+      · rw [stopPhase_idle hq h0 h1]; exact ⟨rfl, fun h => by simp at h, fun h => by simp at h⟩
+      · cases g with
+        | false =>
+          rw [stopPhase_forced hq h0 h1]
+          exact ⟨shutdownSvcs_weight { s with stopQ := rest } true, fun h => by simp at h, fun h => by simp at h⟩
+        | true =>
+          rw [stopPhase_graceful hq h0 h1]
+          exact ⟨shutdownSvcs_weight { s with stopQ := rest } false, fun _ _ => ⟨_, _, _, rfl⟩, fun _ h => by simp at h⟩
+
+/-- **every re-entry of `poll` lowers the measure** -/
+theorem arm_decreases {s : St} (hg : Good s) (hf : s.finished = false) (hb : (arm s).2 = true) :
+    measure (arm s).1 < measure s := by
+  have hsv := hg.svc
+  unfold SvcOK at hsv
+  rw [hf] at hsv; simp only [Bool.false_eq_true, false_or] at hsv
+  cases hst : s.state with
+  | unavailable =>
+    rw [hst] at hsv
+    rcases hsw : sweep s with ⟨s1, r⟩
+    have hw := sweep_weight hsw
+    have hc := sweep_n hsw
+    simp only [core, Prod.mk.injEq] at hc
+    cases r with
+    | ok b => cases b with
+      | true =>
+        rw [arm_unavail_true hst hsw]
+        have e : svcsWeight { s1 with state := .available } = svcsWeight s1 := rfl
+        simp only [measure, e, hst, stateWeight, rank]; simp [LoopRes.again] at hw; omega
+      | false => rw [arm_unavail_false hst hsw] at hb; simp at hb
+    | err i =>
+      obtain ⟨a, _⟩ := sweep_err_spec hsw hsv
+      rw [arm_unavail_err hst hsw]
+      have h1 := restartService_weight s1 i (hc.1 ▸ a)
+      obtain ⟨_, _, _, _, _, _, x, y, z, hs⟩ := restartService_frame s1 i
+      simp only [measure, hst, stateWeight, rank]
+      rw [hs] at h1 ⊢; simp only [rank, stateWeight] at h1 ⊢; simp [LoopRes.again] at hw; omega
+  | restarting tok fp fok sc =>
+    rw [hst] at hsv
+    cases fp with
+    | succ k => rw [arm_restarting_pending hst] at hb; simp at hb
+    | zero => cases fok with
+      | false => rw [arm_restarting_err hst] at hb; simp at hb
+      | true =>
+        rw [arm_restarting_ok hst]
+        have h1 := created_weight (emit s [.facPoll tok .ok]) tok sc hsv.1
+        have e : svcsWeight (emit s [.facPoll tok .ok]) = svcsWeight s := rfl
+        rw [e] at h1
+        have e2 : (created (emit s [.facPoll tok .ok]) tok sc).state = .unavailable := rfl
+        simp only [measure, hst, e2, stateWeight, rank]; omega
+  | shutdown t sf tx => rw [arm_shutdown hst] at hb; simp at hb
+  | available =>
+    rw [hst] at hsv
+    have hw := availLoop_weight s.queue s
+    have hsp := availLoop_spec s.queue s hsv
+    rcases hal : availLoop s s.queue with ⟨s1, r⟩
+    rw [hal] at hw hsp
+    obtain ⟨k1, _, _, k4, _, _, _⟩ := hsp
+    simp only [core2, Prod.mk.injEq] at k1
+    cases r with
+    | pending => rw [arm_avail_pending hst hal] at hb; simp at hb
+    | fault => rw [arm_avail_fault hst hal] at hb; simp at hb
+    | toUnavailable =>
+      rw [arm_avail_unavail hst hal]
+      have e : svcsWeight { s1 with state := .unavailable } = svcsWeight s1 := rfl
+      simp only [measure, e, hst, stateWeight, rank]; simp [LoopRes.again] at hw; omega
+    | restart i =>
+      obtain ⟨a, _⟩ := k4 i rfl
+      rw [arm_avail_restart hst hal]
+      have h1 := restartService_weight s1 i (k1.1 ▸ a)
+      obtain ⟨_, _, _, _, _, _, x, y, z, hs⟩ := restartService_frame s1 i
+      simp only [measure, hst, stateWeight, rank]
+      rw [hs] at h1 ⊢; simp only [rank, stateWeight] at h1 ⊢; simp [LoopRes.again] at hw; omega
+    | closed =>
+      rw [arm_avail_closed hst hal] at hb ⊢
+      rcases closedArm_cases s1 with ⟨_, _, e⟩ | ⟨_, _, e⟩ | ⟨hne, e⟩ <;> rw [e] at hb ⊢
+      · simp at hb
+      · simp at hb
+      · -- a `Stop` found in the `None` arm: the worker goes on only into `Shutdown`
+        simp only [Bool.not_eq_eq_eq_not, Bool.not_true] at hb
+        obtain ⟨w1, w2, _⟩ := stopPhase_weight s1
+        obtain ⟨t, sf, k, hs⟩ := w2 hb hne
+        have hs1w : svcsWeight s1 ≤ svcsWeight s := by simp [LoopRes.again] at hw; omega
+        simp only [measure, hst, hs, stateWeight, rank, w1]; omega
+
+
+/-- the fault, if any, is not "out of fuel" -/
+def NoFuel (s : St) : Prop := s.fault ≠ some .fuel
+
+theorem sweep_nofuel {s s1 : St} {r : Sweep} (h : sweep s = (s1, r)) (hn : NoFuel s) : NoFuel s1 := by
+  have hc := sweep_n h
+  simp only [core, Prod.mk.injEq] at hc
+  unfold NoFuel; rw [hc.2.2.2.2.2.2.2.2.2.2.2.2.2.2.2]; exact hn
+
+theorem availLoop_nofuel (q : List Conn) : ∀ (s : St), NoFuel s → NoFuel (availLoop s q).1 := by
+  induction q with
+  | nil =>
+    intro s hn
+    rcases hsw : sweep s with ⟨s1, r⟩
+    have h1 := sweep_nofuel hsw hn
+    cases r with
+    | err i => rw [availLoop_nil_err hsw]; exact h1
+    | ok b => cases b with
+      | false => rw [availLoop_nil_false hsw]; exact h1
+      | true => cases hco : s1.chanOpen with
+        | true => rw [availLoop_nil_open hsw hco]; exact h1
+        | false => rw [availLoop_nil_closed hsw hco]; exact h1
+  | cons c q ih =>
+    intro s hn
+    rcases hsw : sweep s with ⟨s1, r⟩
+    have h1 := sweep_nofuel hsw hn
+    cases r with
+    | err i => rw [availLoop_cons_err c q hsw]; exact h1
+    | ok b => cases b with
+      | false => rw [availLoop_cons_false c q hsw]; exact h1
+      | true =>
+        by_cases htok : c.2 < s1.n
+        · rw [availLoop_cons_call c q hsw htok]; exact ih _ h1
+        · rw [availLoop_cons_bad c q hsw htok]; simp [NoFuel, setFault]
+
+theorem stopPhase_nofuel {s : St} (hn : NoFuel s) : NoFuel (stopPhase s).1 := by
+  cases hq : s.stopQ with
+  | nil => rw [stopPhase_nil hq]; exact hn
+  | cons a rest =>
+    obtain ⟨k, g⟩ := a
+    by_cases h0 : s.raw = 0
+    · rw [stopPhase_underflow hq h0]; simp [NoFuel, setFault]
+    · by_cases h1 : Src.wcTotal s.raw = 0
+      · rw [stopPhase_idle hq h0 h1]; exact hn
+      · cases g with
+        | false => rw [stopPhase_forced hq h0 h1]; exact hn
+        | true => rw [stopPhase_graceful hq h0 h1]; exact hn
+
+theorem shutdownArm_nofuel {s : St} (t sf tx : Nat) (hn : NoFuel s) : NoFuel (shutdownArm s t sf tx) := by
+  have hr : NoFuel (release s s.queue) := by
+    obtain ⟨_, cs, _, _, _, h5⟩ := release_spec s.queue s
+    rcases h5 with ⟨h, _⟩ | ⟨h, _⟩
+    · unfold NoFuel; rw [h]; exact hn
+    · unfold NoFuel; rw [h]; simp
+  have hd : NoFuel (drained s) := by unfold drained; split <;> exact hr
+  cases hf : (release s s.queue).fault.isSome with
+  | true => rw [shutdownArm_fault t sf tx hf]; exact hr
+  | false =>
+    by_cases c1 : (drained s).now < t
+    · rw [shutdownArm_pending sf tx hf c1]; exact hd
+    · by_cases c2 : (drained s).raw = 0
+      · rw [shutdownArm_underflow sf tx hf c1 c2]; simp [NoFuel, setFault]
+      · by_cases c3 : Src.wcTotal (drained s).raw = 0
+        · rw [shutdownArm_true sf tx hf c1 c2 c3]; exact hd
+        · cases c4 : Src.wkTimedOut ((drained s).now - sf) (drained s).timeout with
+          | true => rw [shutdownArm_false tx hf c1 c2 c3 c4]; exact hd
+          | false => rw [shutdownArm_rearm tx hf c1 c2 c3 c4]; exact hd
+
+theorem arm_nofuel {s : St} (hn : NoFuel s) : NoFuel (arm s).1 := by
+  cases hst : s.state with
+  | unavailable =>
+    rcases hsw : sweep s with ⟨s1, r⟩
+    have h1 := sweep_nofuel hsw hn
+    cases r with
+    | ok b => cases b with
+      | true => rw [arm_unavail_true hst hsw]; exact h1
+      | false => rw [arm_unavail_false hst hsw]; exact h1
+    | err i => rw [arm_unavail_err hst hsw]; exact h1
+  | restarting tok fp fok sc =>
+    cases fp with
+    | succ k => rw [arm_restarting_pending hst]; exact hn
+    | zero => cases fok with
+      | true => rw [arm_restarting_ok hst]; exact hn
+      | false => rw [arm_restarting_err hst]; simp [NoFuel, setFault]
+  | shutdown t sf tx => rw [arm_shutdown hst]; exact shutdownArm_nofuel t sf tx hn
+  | available =>
+    have h1 := availLoop_nofuel s.queue s hn
+    rcases hal : availLoop s s.queue with ⟨s1, r⟩
+    rw [hal] at h1
+    cases r with
+    | pending => rw [arm_avail_pending hst hal]; exact h1
+    | fault => rw [arm_avail_fault hst hal]; exact h1
+    | toUnavailable => rw [arm_avail_unavail hst hal]; exact h1
+    | restart i => rw [arm_avail_restart hst hal]; exact h1
+    | closed =>
+      rw [arm_avail_closed hst hal]
+      rcases closedArm_cases s1 with ⟨_, _, e⟩ | ⟨_, _, e⟩ | ⟨_, e⟩ <;> rw [e]
+      · exact h1
+      · exact h1
+      · exact stopPhase_nofuel h1
+
+theorem body_nofuel {s : St} (hn : NoFuel s) : NoFuel (body s).1 := by
+  unfold body; split
+  · exact stopPhase_nofuel hn
+  · exact arm_nofuel (stopPhase_nofuel hn)
+
+theorem body_decreases {s : St} (hg : Good s) (hf : s.finished = false) (hb : (body s).2 = true) :
+    measure (body s).1 < measure s := by
+  unfold body at hb ⊢
+  split at hb
+  · simp at hb
+  · rename_i hc
+    simp only [hc, if_false, Bool.false_eq_true]
+    simp only [Bool.or_eq_true, not_or, Bool.not_eq_true] at hc
+    have hf1 := (stopPhase_finished s hc.1).trans hf
+    have h1 := arm_decreases hg.stopPhase hf1 hb
+    obtain ⟨w1, w2, w3⟩ := stopPhase_weight s
+    by_cases hq : s.stopQ = []
+    · have hst := w3 hc.1 hq
+      have : measure (stopPhase s).1 = measure s := by simp only [measure, w1, hst]
+      omega
+    · obtain ⟨t, sf, k, hs⟩ := w2 hc.1 hq
+      rw [arm_shutdown hs] at hb; simp at hb
+
+/-- **the self-recursion of `poll` never runs out of fuel**: with more fuel than the measure (three per
+non-`Ready` answer still in some script, plus the rank of the state) `poll` does not fault with `.fuel` -/
+theorem fuel_enough (f : Nat) : ∀ (s : St), Good s → s.finished = false → NoFuel s → measure s < f → NoFuel (pollW f s) := by
+  induction f with
+  | zero => intro s _ _ _ h; omega
+  | succ f ih =>
+    intro s hg hf hn hm
+    simp only [pollW]
+    split
+    · rename_i hb
+      obtain ⟨g1, g2⟩ := hg.body hf
+      exact ih _ g1 (g2 hb) (body_nofuel hn) (by have := body_decreases hg hf hb; omega)
+    · exact body_nofuel hn
+
+
 end ActixNet.Worker
